@@ -689,7 +689,7 @@ func (Area) Gen(r *rand.Rand, tier string, emit func(string)) {
 		// a lookup parked between its single snapshot load and the iteration while the other method's table changes
 		emit("M W0.0,U0.0.1.12;L1,L2,L1,L2;U0.0.2.14,U0.0.3.23,C0 00011222112221111")
 		emit("M W0.0,U0.0.1.12,W1.1,U1.1.2.24;L2,L4,L2;C0;U1.1.3.2 000000112213311")
-		nm := 5
+		nm := 4
 		if thorough {
 			nm = 7
 		}
